@@ -23,7 +23,7 @@ RULE = ('full product F kind x n x Q kind x dt; for each point all equal splitti
 ASSUMPTIONS = ['reference: scaling-and-squaring Taylor exponential in longdouble, composite 10-point '
                'Gauss-Legendre (not Van Loan)', '||F|| dt capped at 64 (cap reported); sharpness follows the measured conditioning kappa',
                'tolerance c eps n kappa (||Qd|| + ||Q|| dt), kappa = measured conditioning: max of max_s ||e^{Fs}|| ||e^{-Fs}|| and that of the Van Loan block matrix (the documented method)']
-F_KINDS = ['zero', 'nilpotent', 'stable_diag', 'unstable_diag', 'skew', 'mixed_dense', 'ins15', 'ins21']
+F_KINDS = ['zero', 'nilpotent', 'stable_diag', 'stable_cascade', 'unstable_diag', 'skew', 'mixed_dense', 'ins15', 'ins21']
 NS = [1, 2, 3, 9, 15, 24]
 Q_KINDS = ['zero', 'diag', 'rank1', 'dense']
 DTS = [0.0, 1e-3, 0.1, 1.0, 10.0]
@@ -102,6 +102,9 @@ def build(case):
         F = np.diag(np.ones(n - 1), 1) if n > 1 else np.zeros((1, 1))
     elif fk == 'stable_diag':
         F = -np.diag(0.2 + 0.3 * np.arange(n))
+    elif fk == 'stable_cascade':
+        # strictly stable and non-normal: negative diagonal with a forward coupling chain
+        F = -np.diag(0.5 + 0.25 * np.arange(n)) + (np.diag(np.ones(n - 1), 1) if n > 1 else 0.0)
     elif fk == 'unstable_diag':
         F = np.diag(0.1 + 0.15 * np.arange(n)) * (1 - 2 * (np.arange(n) % 3 == 0))
     elif fk == 'skew':
